@@ -13,10 +13,12 @@ RULE = ('A history = 1-6 (quick) / 1-10 (thorough) calls over {connect, '
         'status, disconnect, disconnect(immediate)} issued by one or two '
         'user threads, an optional behaviour (reconnect from a play '
         'listener, reconnect from an exception handler, disconnect-then-'
-        'connect from a login-disconnect handler), and a server kind per '
+        'connect from a login-disconnect handler, connect() straight from '
+        'an exception handler), and a server kind per '
         'TCP connection in {refuse, accept and stay silent in play, accept '
         'then play-disconnect, login-disconnect, close mid-stream, '
-        'garbage}; the schedule (Hypothesis-drawn, or all schedules with '
+        'garbage, each of the accepting kinds also with a set-compression '
+        'step}; the schedule (Hypothesis-drawn, or all schedules with '
         '<= 1/2 preemptions for the small histories) decides how far the '
         'networking thread(s) get between and during the calls. A finaliser '
         'then calls disconnect(), waits for every networking thread and '
@@ -27,8 +29,9 @@ RULE = ('A history = 1-6 (quick) / 1-10 (thorough) calls over {connect, '
         'the connection is definitely active and forbidden when it has '
         'definitely ended (S2); disconnect never raises (S3); after the '
         'final disconnect every networking thread terminates within the '
-        'step budget (S4); the final connect succeeds and reaches play '
-        '(S5). Non-trivial: a connect after a non-clean ending or '
+        'step budget (S4); the final connect succeeds and reaches play, '
+        'and every connection the object made was well-formed from its '
+        'first byte (S5). Non-trivial: a connect after a non-clean ending or '
         'overlapping calls; distinct by (history, servers, schedule).')
 LEVEL_TEXT = ('Exploration of call histories x server behaviours x thread '
               'schedules under a deterministic scheduler, with a '
